@@ -15,7 +15,8 @@ CHECK = dict(
          "(ReadFrom dropping bytes returned with EOF/error, empty node after a (0,nil) read, WriteTo losing the rest of "
          "a node on writer error); replays are kept in corpus/C11. Assumes pool memory is referenced by the buffer "
          "alone (C12) and the head/tail/next pointer structure behaves as a list (covered by the differential runs only). "
-         "PeekWithBytes is modelled as coded: its ErrShortBuffer guard compares n with the list alone (see C10).",
+         "PeekWithBytes: its ErrShortBuffer guard compared n with the list alone; found and fixed under C10 (/repo 3230e49), "
+         "model, spec and proof follow the fixed code (the given slices count towards n).",
     technique="Coq proof (refinement to a FIFO byte list, induction over operation lists, store simulation) + differential traces",
 )
 ENGINE = dict(name="llist", path="coq/Model/LList.v", serves_properties=["C11"],
